@@ -148,7 +148,11 @@ int main(int argc, char** argv) {
     if (defaults) { P a = P0(); a.n = 630; a.N = 1024; a.kk = 1; a.l = 3; a.Bgbit = 7; a.t = 8; a.bb = 2; a.ksn = 5; a.amin = pow(2., -15); a.amax = 0.012467; a.tmin = pow(2., -25); a.tmax = 0.012467; grid.push_back(a); }
     // twins: the same dimensions with noise levels that differ in the 7th significant digit only - every imported object carries its own parameter values,
     // whatever was imported before it in the process
-    { size_t g0 = grid.size(); for (size_t g = 0; g < g0 && g < 2; g++) { P t = grid[g]; t.amin *= 1.0000001; t.amax *= 0.9999999; t.tmin *= 1.0000001; t.tmax *= 0.9999999; grid.push_back(t); } }
+    { size_t g0 = grid.size(); for (size_t g = 0; g < g0 && g < 2; g++) { P t = grid[g]; t.amin *= 1.0000001; t.amax *= 0.9999999; t.tmin *= 1.0000001; t.tmax *= 0.9999999; grid.push_back(t); }
+      // partial twins: exactly one of the four noise levels differs (an importer that recognises "the same parameters" by a subset of the fields)
+      // as a chain in which each set differs from the one imported just before it in one field only
+      for (size_t g = 0; g < g0 && g < 2; g++) { P t = grid[g]; grid.push_back(t); double* fld[4] = {&t.amin, &t.amax, &t.tmin, &t.tmax};
+          for (int f = 0; f < 4; f++) { *fld[f] = (*fld[f] == 0.0) ? 1e-9 : *fld[f] * (f & 1 ? 0.9999999 : 1.0000001); grid.push_back(t); } } }
     for (size_t gi = 0; gi < grid.size(); gi++) {
         bool big = grid[gi].N >= 1024;
         std::vector<Obj> objs = make_objects(grid[gi], grid[gi].N == 1024);
